@@ -105,7 +105,10 @@ class P(Prop):
 
     def check_adder(self, w, ci, co):
         case = {"fn": "adder", "w": w, "carry_in": ci, "carry_out": co}
-        c = cg.logic.adder(w, ci, co)
+        o_, c = call(cg.logic.adder, w, ci, co)
+        if o_ != "ok":
+            self.fail("search", "adder-raised-" + o_, f"logic.adder({(w, ci, co,)}) raised {o_}", case)
+            return
         self.check_lint(c, case)
         nb = 2 * w + (1 if ci else 0)
         for x in self.vectors(nb):
@@ -127,7 +130,10 @@ class P(Prop):
 
     def check_mux(self, w):
         case = {"fn": "mux", "w": w}
-        c = cg.logic.mux(w)
+        o_, c = call(cg.logic.mux, w)
+        if o_ != "ok":
+            self.fail("search", "mux-raised-" + o_, f"logic.mux({(w,)}) raised {o_}", case)
+            return
         self.check_lint(c, case)
         k = cg.utils.clog2(w)
         for x in self.vectors(w + k):
@@ -145,7 +151,10 @@ class P(Prop):
         """widths past a digit boundary of the select-line count (w = 1025 needs sel_10): pairing the product terms with the
         select lines by name order instead of by index would go wrong exactly there"""
         case = {"fn": "mux", "w": w, "wide": True}
-        c = cg.logic.mux(w)
+        o_, c = call(cg.logic.mux, w)
+        if o_ != "ok":
+            self.fail("search", "mux-raised-" + o_, f"logic.mux({(w,)}) raised {o_}", case)
+            return
         k = cg.utils.clog2(w)
         if set(c.inputs()) != {f"in_{i}" for i in range(w)} | {f"sel_{i}" for i in range(k)} or c.outputs() != {"out"}:
             self.fail("search", "mux-io", f"mux({w}): unexpected interface", case)
@@ -169,7 +178,10 @@ class P(Prop):
 
     def check_popcount(self, w):
         case = {"fn": "popcount", "w": w}
-        c = cg.logic.popcount(w)
+        o_, c = call(cg.logic.popcount, w)
+        if o_ != "ok":
+            self.fail("search", "popcount-raised-" + o_, f"logic.popcount({(w,)}) raised {o_}", case)
+            return
         self.check_lint(c, case)
         nout = len(c.outputs())
         for x in self.vectors(w, exhaustive_upto=11):
@@ -233,13 +245,19 @@ class P(Prop):
                                  (cg.logic.adder, (w, True, False), lambda: self.check_adder(w, True, False)),
                                  (cg.logic.mux, (w,), lambda: self.check_mux(w)),
                                  (cg.logic.popcount, (w,), lambda: self.check_popcount(w))):
-                first = f(*args)
+                o_, first = call(f, *args)
+                if o_ != "ok":
+                    chk()       # reports the exception with its own signature
+                    continue
                 victims = [g for g in first.graph.nodes if first.type(g) in ("and", "or", "xor")]
                 if victims:
                     g = victims[0]
                     first.set_type(g, {"and": "or", "or": "and", "xor": "xnor"}[first.type(g)])
-                second = f(*args)
+                o_, second = call(f, *args)
                 self.search_cases += 1
+                if o_ != "ok":
+                    chk()
+                    continue
                 if second is first:
                     self.fail("search", "generator-returns-same-object", f"{f.__name__}{args} returned the object of an earlier call",
                               {"fn": f.__name__, "w": w})
